@@ -200,3 +200,27 @@ Proof. unfold readb_take. cbn [fst snd]. split; [apply firstn_skipn|apply firstn
 Theorem throttle_cancel_safe l : lstep l TakeCancelled = Stepped l /\
   forall l', lstep l TakeCancelled = Stepped l' -> pending l' = pending l /\ chan l' = chan l /\ st l' = st l.
 Proof. split; [reflexivity|]. intros l' H. inversion H. subst. auto. Qed.
+
+(** retransmit first over a SECOND failure while the replay is incomplete and the channel is not
+    empty: [loop_clean] puts what the state holds, then what was STILL pending, then the channel.
+    Three publishes unacknowledged, failure, resume, one retransmission, two new user publishes,
+    second failure: pending is 1, 2, 3 (original ids) and only then 4, 5 — and [pending_first]
+    applies to that state: they are taken in this order on the next connection *)
+Definition replay_cut_history : list lop :=
+  [Reconnect true; UserSend (pq1 1); UserSend (pq1 2); UserSend (pq1 3); TakeRequest; Yield; TakeRequest; Yield; TakeRequest; Yield;
+   Fail; Reconnect true; TakeRequest; Yield; UserSend (pq1 4); UserSend (pq1 5); Fail].
+
+Example second_failure_during_replay :
+  option_map (fun l => (pending l, chan l)) (lrun (linit 10 false) replay_cut_history)
+  = Some ([RPublish (mkPub Q1 1 1 1); RPublish (mkPub Q1 2 2 2); RPublish (mkPub Q1 3 3 3); pq1 4; pq1 5], []) /\
+  option_map wire (lrun (linit 10 false)
+    (replay_cut_history ++ [Reconnect true; TakeRequest; Yield; TakeRequest; Yield; TakeRequest; Yield; TakeRequest; Yield; TakeRequest; Yield]))
+  = Some [PPublish (mkPub Q1 1 1 1); PPublish (mkPub Q1 2 2 2); PPublish (mkPub Q1 3 3 3); PPublish (mkPub Q1 4 4 4); PPublish (mkPub Q1 5 5 5)].
+Proof. vm_compute. split; reflexivity. Qed.
+
+(** the general step behind it: whatever is still pending stays in front of the channel's requests *)
+Theorem clean_keeps_pending_before_channel l : Inv (st l) ->
+  exists l' reqs, loop_clean l = Ok l' /\ pending l' = reqs ++ pending l ++ filter not_puback (chan l) /\ chan l' = [].
+Proof.
+  intros I. destruct (loop_clean_inv l I) as [l' [Hc [_ [_ [Hch [_ [reqs [_ Hp]]]]]]]]. exists l', reqs. auto.
+Qed.
